@@ -87,4 +87,13 @@ TEXT = {
  'note': "Trusted: the harness's compress/* based decompressors and the toy codec; refwire for building requests/responses.",
  'technique': 'property-based testing (rapid): negotiation reference model, independent decompression oracle, history invariant (valid call == fresh result) '
               'on shared pools'},
+    'C06': {'text': 'Exploration: valid reference responses, structured mutations of them, synthetic frame sequences with every flag byte, catalogues of hostile Connect '
+         'error / end-of-stream JSON, grpc-status / grpc-message / details-bin values, gRPC-Web trailer blocks, arbitrary statuses and random bytes, delivered '
+         'to all client APIs in a synctest bubble. Oracle: no panic, no deadlock, success XOR coded non-zero error, status-only mapping as a metamorphic '
+         'relation, case-insensitive trailing-metadata lookups for generated key casings.',
+ 'design_ref': 'DESIGN.md §5 C06',
+ 'note': 'Trusted: memnet.Script; refwire (to build the valid starting points and to decide whether a body carries a protocol-level error). A native '
+         "coverage-guided fuzz target is not part of the registered commands (Go's fuzzer cannot be seeded).",
+ 'technique': 'property-based testing (rapid): structured mutation of valid responses + hostile constant catalogues; safety oracle, metamorphic status→code '
+              'relation, case-insensitivity relation'},
 }
